@@ -447,10 +447,16 @@ func formEntry() *entry {
 		runFormProg(c, e, prog, withSubmit)
 		// the form decoded into a target that already holds another form
 		var a, b []byte
+		var d1, d2 *form.Data
 		if guard(c, "form.Data", "constructors", func() {
-			b = firstGoodEncoding(prog.build())
-			a = firstGoodEncoding(genFormProg(g, false).build())
-		}) || len(a) == 0 || len(b) == 0 {
+			d1, d2 = prog.build(), genFormProg(g, false).build()
+			b = firstGoodEncoding(d1)
+			a = firstGoodEncoding(d2)
+		}) {
+			return
+		}
+		interleaveCheck(c, e, d1, d2)
+		if len(a) == 0 || len(b) == 0 {
 			return
 		}
 		reuseCheck(c, e, "UnmarshalXML(encoding)", true, a, b)
